@@ -144,20 +144,34 @@ Definition check_completion (t : tdef) (e : bexpr) : verdict :=
 (* ---------- skip mode ---------- *)
 Definition is_nil {A} (l : list A) : bool := match l with [] => true | _ => false end.
 
-Definition skip_disable (conf : list nat) : nat :=
-  if mem Nat.eqb FAILED conf then SUCCEEDED else FAILED.
+(* which of succeeded/failed to produce: failed if configured, or if nothing is
+   configured and `failed` is a required output (no disable); None = NameError *)
+Definition emit_failed (e : option bexpr) (outs : list nat) (conf : list nat) : option bool :=
+  if mem Nat.eqb FAILED conf then Some true
+  else if is_nil conf then
+    match iter_required e outs None with
+    | None => None
+    | Some req => Some (mem Nat.eqb FAILED req)
+    end
+  else Some false.
+
+Definition skip_disable (ef : bool) : nat := if ef then SUCCEEDED else FAILED.
 
 (* process_outputs; [conf] = rtconfig['skip']['outputs'] *)
 Definition skip_outputs (e : option bexpr) (outs : list nat) (conf : list nat) : option (list nat) :=
-  match iter_required e outs (Some (skip_disable conf)) with
+  match emit_failed e outs conf with
   | None => None
-  | Some req =>
-      Some (canon_set (
-        [SUBMITTED; STARTED]
-        ++ filter (fun m => negb (Nat.eqb m SUCCEEDED) && negb (Nat.eqb m FAILED)
-                            && (is_nil conf || mem Nat.eqb m conf)) req
-        ++ filter (fun m => mem Nat.eqb m conf) outs
-        ++ [if mem Nat.eqb FAILED conf then FAILED else SUCCEEDED]))
+  | Some ef =>
+      match iter_required e outs (Some (skip_disable ef)) with
+      | None => None
+      | Some req =>
+          Some (canon_set (
+            [SUBMITTED; STARTED]
+            ++ filter (fun m => negb (Nat.eqb m SUCCEEDED) && negb (Nat.eqb m FAILED)
+                                && (is_nil conf || mem Nat.eqb m conf)) req
+            ++ filter (fun m => mem Nat.eqb m conf) outs
+            ++ [if ef then FAILED else SUCCEEDED]))
+      end
   end.
 
 (* ---------- correspondence interface ---------- *)
